@@ -47,7 +47,7 @@ Lemma printable_tup l :
   printable (VTup l) = sugar_ok l && negb (nested_neg l) &&
                        forallb (fun p => name_ok (fst p) && printable (snd p)) l.
 Proof.
-  cbn [printable]. f_equal. induction l as [|[n x] l IH]; [reflexivity|].
+  unfold printable. cbn [printable_gen]. f_equal. induction l as [|[n x] l IH]; [reflexivity|].
   cbn [forallb fst snd]. rewrite IH. reflexivity.
 Qed.
 
@@ -507,3 +507,170 @@ Proof.
 Qed.
 
 End Main.
+Definition mem_val (m : val) : val := match m with VTup [_; (_, x)] => x | _ => VSet [] end.
+Definition mem_pair (m : val) : val * val := (mem_key m, mem_val m).
+Definition mem_attrs (m : val) : list (name * val) := match m with VTup a => a | _ => [] end.
+
+Lemma rd_names_spec ns : forall X, ns <> [] ->
+  rd_names (commas (map (fun n => [TIdent n]) ns) ++ TBar :: X) = Some (ns, X).
+Proof.
+  induction ns as [|a ns IH]; intros X Hne; [congruence|].
+  destruct ns as [|b ns']; [reflexivity|].
+  cbn [map]. rewrite commas_cons. cbn [app rd_names].
+  change ([TIdent b] :: map (fun n => [TIdent n]) ns') with (map (fun n => [TIdent n]) (b :: ns')).
+  rewrite IH by discriminate. reflexivity.
+Qed.
+
+Section Main2.
+Variable f : nat.
+Hypothesis IH : forall w rest, (length (pr w) <= f)%nat -> printable w = true -> follow_ok rest ->
+                               rd f (pr w ++ rest) = Some (norm w, rest).
+
+Lemma sugar_members l s nm :
+  set_shape l = s ->
+  (s = ShStr /\ nm = n_char) \/ (s = ShBytes /\ nm = n_byte) \/ (s = ShArr /\ nm = n_item) \/ (s = ShDict /\ nm = n_value) ->
+  l <> [] /\ forall m, In m l -> exists k x, m = VTup [(n_at, k); (nm, x)].
+Proof.
+  intros Sh Hs.
+  destruct Hs as [[Es En]|[[Es En]|[[Es En]|[Es En]]]]; rewrite Es in Sh; rewrite En;
+    (destruct (set_shape_inv l _ Sh) as (b & Hne & Hb & Hsb); try discriminate;
+     apply shape_bucket_inv in Hsb; cbn in Hsb; subst b;
+     split; [exact Hne|]; intros m Hm; rewrite Forall_forall in Hb;
+     eapply bucket_sugar_inv; [|apply Hb; exact Hm]; tauto).
+Qed.
+
+Lemma rd_dict l rest :
+  set_shape l = ShDict -> (length (pr (VSet l)) <= S f)%nat -> set_ok l = true -> forallb printable l = true ->
+  rd (S f) (pr (VSet l) ++ rest) = Some (norm (VSet l), rest).
+Proof.
+  intros Sh Hl Hok Hp.
+  destruct (sugar_members l ShDict n_value Sh) as [Hne Hm]; [tauto|].
+  rewrite pr_vset in *. unfold pr_set in *. unfold set_ok, set_ok_gen in Hok. rewrite Sh in *.
+  assert (E1 : map (fun p => part1 p ++ TColon :: part2 p) (map pr_member l) = map pr_pair (map mem_pair l)).
+  { rewrite !map_map. apply map_ext_in. intros m Hin. destruct (Hm m Hin) as (k & x & ->). reflexivity. }
+  assert (E2 : map norm l = map entry (map norm_pair (map mem_pair l))).
+  { rewrite !map_map. apply map_ext_in. intros m Hin. destruct (Hm m Hin) as (k & x & ->). reflexivity. }
+  assert (E3 : map fst (map norm_pair (map mem_pair l)) = map (fun m => norm (mem_key m)) l).
+  { rewrite !map_map. reflexivity. }
+  rewrite E1 in *.
+  assert (Hrv : forall p, In p (map mem_pair l) -> reads (rd f) (fst p) /\ reads (rd f) (snd p)).
+  { intros p Hin. assert (Hin2 := Hin). apply in_map_iff in Hin as (m & <- & Hin). destruct (Hm m Hin) as (k & x & ->).
+    assert (Hpm := forallb_In _ _ _ Hp Hin). rewrite printable_tup in Hpm. apply andb_true_iff in Hpm as [_ Hpm].
+    cbn [forallb fst snd] in Hpm.
+    apply andb_true_iff in Hpm as [Hk Hx]. apply andb_true_iff in Hk as [_ Hk].
+    apply andb_true_iff in Hx as [Hx _]. apply andb_true_iff in Hx as [_ Hx].
+    assert (Hlen : (length (pr_pair (mem_pair (VTup [(n_at, k); (n_value, x)]))) <= f)%nat).
+    { eapply braced_len; [|exact Hl]. apply in_map. exact Hin2. }
+    unfold pr_pair, mem_pair in Hlen. cbn [mem_key mem_val fst snd] in Hlen. rewrite app_length in Hlen. cbn [length] in Hlen.
+    cbn [mem_pair mem_key mem_val fst snd]. split; apply IH_reads; try assumption; lia. }
+  set (items := map mem_pair l) in *.
+  assert (Hine : items <> []) by (subst items; destruct l; [congruence | discriminate]).
+  cbn [app]. rewrite rd_S_brace, <- app_assoc. cbn [app].
+  assert (Hspec : rd_pairs (rd f) (length (commas (map pr_pair items) ++ TRBrace :: rest)) (commas (map pr_pair items) ++ TRBrace :: rest)
+                  = Some (map norm_pair items, TRBrace :: rest)).
+  { apply rd_pairs_spec; [exact Hine | exact Hrv | | reflexivity].
+    rewrite app_length. assert (H := commas_len_ge (map pr_pair items)). rewrite map_length in H.
+    assert (length items <= length (commas (map pr_pair items)))%nat; [|lia].
+    apply H. intros x Hx. apply in_map_iff in Hx as (q & <- & _). unfold pr_pair.
+    destruct (pr (fst q)); discriminate. }
+  assert (Hfirst : exists v tl, rd f (commas (map pr_pair items) ++ TRBrace :: rest) = Some (v, TColon :: tl)).
+  { destruct items as [|p r]; [congruence|]. destruct (Hrv p (or_introl eq_refl)) as [Hk _].
+    destruct r as [|y r]; cbn [map].
+    - cbn [commas]. unfold pr_pair. rewrite <- app_assoc. cbn [app]. rewrite Hk by exact I. eauto.
+    - rewrite commas_cons. unfold pr_pair at 1. rewrite <- !app_assoc. cbn [app]. rewrite Hk by exact I. eauto. }
+  assert (Hhead : exists t ts, commas (map pr_pair items) = t :: ts /\ vstart t = true).
+  { destruct items as [|p r]; [congruence|].
+    destruct (pr_head (fst p)) as (t & ts & E & Ht).
+    destruct r as [|y r]; cbn [map].
+    - cbn [commas]. unfold pr_pair. rewrite E. cbn [app]. eauto.
+    - rewrite commas_cons. unfold pr_pair at 1. rewrite E. cbn [app]. eauto. }
+  destruct Hfirst as (v & tl & Hf). destruct Hhead as (t & ts & E & Ht).
+  rewrite E in *. cbn [app] in *. rewrite rd_brace_start by exact Ht. unfold rd_brace_gen. rewrite Hf, Hspec.
+  rewrite E3, Hok. unfold mk_set. cbn [norm]. rewrite E2. reflexivity.
+Qed.
+
+Lemma rd_relation l ns rest :
+  set_shape l = ShRel ns -> (length (pr (VSet l)) <= S f)%nat -> set_ok l = true -> forallb printable l = true ->
+  rd (S f) (pr (VSet l) ++ rest) = Some (norm (VSet l), rest).
+Proof.
+  intros Sh Hl Hok Hp.
+  destruct (set_shape_inv l _ Sh) as (b & Hne & Hb & Hsb); try discriminate.
+  apply shape_bucket_inv in Hsb. cbn in Hsb. destruct Hsb as [-> _].
+  assert (Hm : forall m, In m l -> exists a, m = VTup a /\ map fst a = ns).
+  { intros m Hm. rewrite Forall_forall in Hb. apply bucket_rel_inv. apply Hb. exact Hm. }
+  rewrite pr_vset in *. unfold pr_set in *. unfold set_ok, set_ok_gen in Hok. rewrite Sh in *.
+  assert (Hns : ns <> []) by (destruct ns; [discriminate Hok | discriminate]).
+  assert (E1 : map (fun p => TLPar :: commas (map snd (snd p)) ++ [TRPar]) (map pr_member l) = map pr_row (map mem_attrs l)).
+  { rewrite !map_map. apply map_ext_in. intros m Hin. destruct (Hm m Hin) as (a & -> & _).
+    unfold pr_member, pr_row, pr_attrs. cbn [snd mem_attrs]. rewrite !map_map. reflexivity. }
+  assert (E2 : map norm l = map (fun a => norm (VTup a)) (map mem_attrs l)).
+  { rewrite !map_map. apply map_ext_in. intros m Hin. destruct (Hm m Hin) as (a & -> & _). reflexivity. }
+  rewrite E1 in *.
+  assert (Hrv : forall a, In a (map mem_attrs l) -> map fst a = ns /\ forall p, In p a -> reads (rd f) (snd p)).
+  { intros a Hin. assert (Hin2 := Hin). apply in_map_iff in Hin as (m & <- & Hin). destruct (Hm m Hin) as (a & -> & Ha).
+    cbn [mem_attrs]. split; [exact Ha|]. intros p Hpa.
+    assert (Hpm := forallb_In _ _ _ Hp Hin). rewrite printable_tup in Hpm. apply andb_true_iff in Hpm as [_ Hpm].
+    assert (Hpp := forallb_In _ _ _ Hpm Hpa). apply andb_true_iff in Hpp as [_ Hpp].
+    apply (IH_reads f IH); [|exact Hpp].
+    assert (Hrow : (length (pr_row a) <= length (commas (map pr_row (map mem_attrs l))))%nat).
+    { apply commas_len_in. apply in_map. exact Hin2. }
+    assert (Hx : (length (pr (snd p)) <= length (commas (map pr (map snd a))))%nat).
+    { apply commas_len_in. apply in_map. apply in_map. exact Hpa. }
+    assert (Hr2 : length (pr_row a) = S (length (commas (map pr (map snd a))) + 1)%nat)
+      by (unfold pr_row; cbn [length]; rewrite app_length; reflexivity).
+    cbn [length] in Hl. rewrite ?app_length in Hl. cbn [length] in Hl. rewrite ?app_length in Hl. cbn [length] in Hl.
+    lia. }
+  set (rows := map mem_attrs l) in *.
+  assert (Hrne : rows <> []) by (subst rows; destruct l; [congruence | discriminate]).
+  cbn [app]. rewrite rd_S_brace. cbn [rd_brace]. unfold rd_rel. rewrite <- !app_assoc. cbn [app].
+  rewrite rd_names_spec by exact Hns. rewrite <- ?app_assoc. cbn [app].
+  rewrite rd_rows_spec; [ | exact Hns | exact Hrne | exact Hrv | | reflexivity].
+  - unfold mk_set. cbn [norm]. rewrite E2. reflexivity.
+  - rewrite app_length. assert (H := commas_len_ge (map pr_row rows)). rewrite map_length in H.
+    assert (length rows <= length (commas (map pr_row rows)))%nat; [|lia].
+    apply H. intros x Hx. apply in_map_iff in Hx as (q & <- & _). discriminate.
+Qed.
+
+End Main2.
+
+(* ---------- the round trip ---------- *)
+Theorem rd_pr : forall f w rest,
+  (length (pr w) <= f)%nat -> printable w = true -> follow_ok rest ->
+  rd f (pr w ++ rest) = Some (norm w, rest).
+Proof.
+  induction f as [|f IH]; intros w rest Hl Hp Hf.
+  - assert (H := pr_len_pos w). lia.
+  - destruct w as [n|l|l].
+    + cbn [pr norm]. apply rd_num. exact Hf.
+    + apply rd_tuple; assumption.
+    + rewrite printable_set in Hp. apply andb_true_iff in Hp as [Hok Hp].
+      destruct (set_shape l) eqn:Sh.
+      * destruct l; [reflexivity|]. unfold set_shape in Sh. destruct (is_true_set (v :: l)); [discriminate|].
+        destruct (forallb _ l); [|discriminate]. destruct (member_bucket v); try discriminate.
+        cbn in Sh. destruct (forallb is_ident names); discriminate.
+      * assert (E : l = [VTup []]).
+        { destruct l as [|m r]; [discriminate|]. unfold set_shape in Sh.
+          destruct (is_true_set (m :: r)) eqn:T.
+          - destruct m as [|[|]|]; try discriminate. destruct r; [reflexivity|discriminate].
+          - destruct (forallb _ r); [|discriminate]. destruct (member_bucket m); try discriminate.
+            cbn in Sh. destruct (forallb is_ident names); discriminate. }
+        subst l. destruct rest as [|t rest]; [reflexivity|]. destruct t; try contradiction; reflexivity.
+      * apply rd_generic; assumption.
+      * unfold set_ok, set_ok_gen in Hok. rewrite Sh in Hok. discriminate.
+      * unfold set_ok, set_ok_gen in Hok. rewrite Sh in Hok. discriminate.
+      * unfold set_ok, set_ok_gen in Hok. rewrite Sh in Hok. discriminate.
+      * apply rd_dict; assumption.
+      * eapply rd_relation; eassumption.
+Qed.
+
+Theorem read_print_tokens w rest :
+  printable w = true -> follow_ok rest -> read_tokens (pr w ++ rest) = Some (norm w, rest).
+Proof.
+  intros Hp Hf. unfold read_tokens. apply rd_pr; [rewrite app_length; lia | exact Hp | exact Hf].
+Qed.
+
+Theorem read_print_canonical v : Canon v -> printable v = true -> read_all (pr v) = Some v.
+Proof.
+  intros Hc Hp. unfold read_all. rewrite <- (app_nil_r (pr v)). rewrite read_print_tokens by (assumption || exact I).
+  rewrite Hc. reflexivity.
+Qed.
